@@ -3,5 +3,5 @@ CONSTANTS P = 46337
   K = 200
 INIT Init
 NEXT Next
-INVARIANTS RotAdditive RotProper RotCCW RodriguesLaws QuatRoute TokenLaw HamiltonLaws QuatActs BuilderActs ChainOrder TransformLaw BasisLaws LookAtLaw
+INVARIANTS RotAdditive RotProper RotCCW RodriguesLaws QuatRoute TokenLaw HamiltonLaws QuatActs BuilderActs ChainOrder TransformLaw BasisLaws LookAtLaw EmbedLaw
 CHECK_DEADLOCK FALSE
